@@ -52,9 +52,15 @@ Ops == {[op |-> "add", n |-> n] : n \in Nodes}
        \cup {[op |-> "remove", n |-> n] : n \in Nodes}
        \cup {[op |-> "lookup"]}
 
+\* "build" (trace validation only): a constructor (cache.New, kv.New) adds o.mem[n] virtual nodes
+\* of every node n to an empty ring in one observed step
 MemAfter(m, o) == CASE o.op = "lookup" -> m
                     [] o.op = "remove" -> [m EXCEPT ![o.n] = Absent]
+                    [] o.op = "build"  -> [n \in Nodes |-> o.mem[n]]
                     [] OTHER           -> [m EXCEPT ![o.n] = Eff(o)]
+
+InitMem == [n \in Nodes |-> Absent]
+InitAsg == [k \in Probe |-> None]
 
 Live(m) == {n \in Nodes : m[n] > 0}
 
@@ -66,14 +72,13 @@ Total(m, a)   == \A k \in DOMAIN a : TotalAt(m, a[k])
 MoveOK(m, o, f, t) ==
   CASE o.op = "lookup" -> FALSE
     [] o.op = "remove" -> f = o.n
+    [] o.op = "build"  -> f = None /\ m = InitMem
     [] OTHER           -> IF m[o.n] = Absent THEN t = o.n ELSE (f = o.n \/ t = o.n)
 
 Contract(m, a, o, a2) ==
   /\ Total(MemAfter(m, o), a2)
   /\ \A k \in DOMAIN a : a2[k] # a[k] => MoveOK(m, o, a[k], a2[k])
 
-InitMem == [n \in Nodes |-> Absent]
-InitAsg == [k \in Probe |-> None]
 
 Init == mem = InitMem /\ asg = InitAsg /\ out = [op |-> "init"]
 
